@@ -62,15 +62,19 @@ CHECKS["C05"] = dict(
 CHECKS["C01"] = dict(
     engine="statemachine",
     technique="TLA+ spec StateMachine.tla (reference apply semantics + snapshot/replay persistence; TLC: LiveIsFold, "
-              "SnapshotsExact, RestartExact), kind-first TLC simulation replayed on a mini node across real process "
-              "restarts, recorded random histories validated by TLC (Trace_StateMachine)",
+              "SnapshotsExact, RestartExact, ImportRebuildsAllButNamespaces; four Defect_* negative controls), kind-first TLC "
+              "simulation over three alphabets + thin MCP cases exported from the complete state graph of the small MCP model, "
+              "replayed on a mini node across real process restarts; real export / import (every request kind an import sends) "
+              "judged through restart and compaction; recorded random histories validated by TLC (Trace_StateMachine)",
     text="TLC checks that snapshot + log-suffix replay reproduces the fold of the applied requests for every placement of "
-         "compactions, interrupted snapshot attempts and restarts (two named deviations - stale snapshot tail, non-atomic "
-         "capture - are negative controls). Generated behaviours are executed on the real node wiring: after every step "
-         "the served configs (content, md5, history), namespaces, users and sequence counters are compared with the spec, "
-         "and at every restart with the dump taken before the stop.",
-    note="clean stop only; compaction is not run concurrently with applies; MCP / persistent instances / cache are "
-         "not driven yet; trusts the dump (public query messages + one read-only hook for the sequence counters)",
+         "compactions, interrupted snapshot attempts and restarts, over ALL seven components (configs with type / description / "
+         "history, namespaces, users, sequences, persistent instances, replicated cache, MCP tool specs and servers with the "
+         "derived reference semantics); named deviations (stale snapshot tail, non-atomic capture, two MCP bookkeeping "
+         "deviations) are negative controls. Generated behaviours are executed on the real node wiring: after every step the "
+         "served state is compared with the spec, and at every restart the full dump with the dump taken before the stop.",
+    note="clean stop only; compaction is not run concurrently with applies; cache entries with a TTL and more than ten "
+         "publishes per MCP server are not driven; trusts the dump (public query messages + two read-only hooks: sequence "
+         "counters, registry dump)",
     design_ref="5 C01")
 CHECKS["C04"] = dict(
     engine="crashstore",
@@ -99,7 +103,8 @@ CHECKS["C06"] = dict(
               "(2) TLC-simulated behaviours projected on each node and replayed on real mini nodes (apply, echo, compaction, "
               "restart), served values compared with the spec after every step",
     text="Cluster histories: calls via any node, answers, SIGKILL / SIGSTOP faults and restarts, values served by every live "
-         "node at quiescent points and after a final round of restarts; trace validation decides whether some placement of "
+         "node at quiescent points and after a final round of restarts (incl. a follower away during 29 acknowledged writes); "
+         "trace validation decides whether some placement of "
          "the commits explains all answers and reads. Node-level replay decides the interaction of applies, echoes, snapshots "
          "and restarts for every order the model allows.",
     note="cluster nodes are mini-node processes with the real start-up wiring and real gRPC services (no HTTP layer); Raft "
@@ -110,21 +115,25 @@ CHECKS["C06"] = dict(
 CHECKS["C07"] = dict(
     engine="statemachine",
     technique="TLA+ spec StateMachine.tla (ApplyReq reference semantics), TLC-generated request sequences and batch "
-              "splits executed through leader apply, follower batch replication and start-up replay on mini nodes, dumps "
-              "compared pairwise and with the spec; recorded leader traces validated by TLC",
+              "splits executed through leader apply, follower batch replication (plain and echoing), start-up replay and a "
+              "restart from a snapshot midway on mini nodes, dumps compared pairwise and with the spec; the log entries of a real "
+              "import pushed through the follower path; recorded leader traces validated by TLC",
     text="The decisive leg is conformance: the same committed sequence goes through FileStore::apply_entry_to_state_machine, "
          "replicate_to_state_machine (TLC-chosen splits, one big batch, random batches up to 40) and process start-up "
          "replay; all served-state dumps must be identical and equal to the spec's fold.",
-    note="request kinds: config set/remove, namespace, user table, sequence; ordering across different component "
-         "actors on the follower path is fire-and-forget and compared only after quiescence",
+    note="every ClientRequest kind except NodeAddr / Members (C05): config set (type, description; not given / given empty / "
+         "given) / remove / full value, namespace set / update / delete, user table, sequences, persistent instances, cache, MCP "
+         "tool specs and servers (incl. the import forms); ordering across different component actors on the follower path is "
+         "fire-and-forget and compared only after quiescence",
     design_ref="5 C07")
 
 CHECKS["C08"] = dict(
     engine="snapinstall",
     technique="TLA+ spec SnapInstall.tla (leader log / compaction / membership, entry replication, chunked snapshot stream "
-              "with lost answers, repeated final chunk, follower crash and restart, stream abort; invariants "
-              "InstalledIntact and FollowerServesPrefix; five Defect_* negative controls) model-checked by TLC; "
-              "TLC-simulated behaviours replayed on a real leader node and a real follower node with hand-carried entries "
+              "with lost answers, repeated final chunk, follower crash and restart, stream abort, the follower's echo of a "
+              "routed publish; invariants InstalledIntact and FollowerServesPrefix; six Defect_* negative controls) "
+              "model-checked by TLC; TLC-simulated behaviours + thin cases exported from the complete state graph (install over "
+              "an echoed value) replayed on a real leader node and a real follower node with hand-carried entries "
               "and chunks, the follower's served state and membership compared with the specification after every step "
               "and after a final restart",
     text="The model decides the design of the install protocol exhaustively for small constants (3-4 log entries, 2-3 "
@@ -139,8 +148,8 @@ CHECKS["C08"] = dict(
 
 CHECKS["C09"] = dict(
     engine="configcenter",
-    technique="TLA+ spec ConfigCenter.tla (store/listing/history semantics; TLC invariants on history), TLC-simulated "
-              "publish/remove/import behaviours replayed on a real ConfigActor with exhaustive page-window and filter sweeps "
+    technique="TLA+ spec ConfigCenter.tla (store/listing/history semantics; TLC invariants on history, ListedIffCommitted), "
+              "TLC-simulated publish/remove/import/echo behaviours replayed on a real ConfigActor with exhaustive page-window and filter sweeps "
               "after every step",
     text="The store semantics (last write wins, history one entry per content change bounded, import, remove) are "
          "model-checked; each generated behaviour is executed on the real actor and after every step every key's GET "
@@ -247,9 +256,13 @@ CHECKS["C16"] = dict(
          "observations; gRPC leg: every registered request type (+ ServerCheck + one unregistered name) x 2 carriers x 5 token "
          "states x 7 cluster-token states sent to the real tonic services over a channel with an established bi-stream; "
          "GrpcNoDataWithoutToken, ClusterNeedsClusterToken (+ the two 'valid passes' sanity rules) evaluated on all; restore "
-         "leg: a real login with a 3 s token, compaction, new process on the same directory, the expired token must be refused. "
-         "TLA+ is used here as exhaustive case enumerator and requirement evaluator, not as a temporal model.",
-    note="tokens are placed in the token cache directly (valid / expired); gRPC services are wired as in main.rs (the binary's "
+         "leg: a real login with a 3 s token, compaction, new process on the same directory, the expired token must be refused; "
+         "life-cycle leg: TokenLife.tla (TLC: RefusedAfterExpiry, negative control 'every use refreshes the remembered "
+         "verification') and trace validation of one real token presented every 400 ms from the login until 6 s after its "
+         "life time. For the table part TLA+ is the exhaustive case enumerator and requirement evaluator; the time axis is a "
+         "temporal model.",
+    note="table part: tokens are placed in the token cache directly (valid / expired); life-cycle and restore legs: real "
+         "logins; gRPC services are wired as in main.rs (the binary's "
          "own wiring is not linked); one cluster-token value; auth-off and no-cluster-token configurations are outside the property",
     design_ref="5 C16")
 CHECKS["C17"] = dict(
